@@ -154,6 +154,13 @@ def run(pid, tier):
         neg = V.tlc('MC_Block2', cfgname, workers=4, deque=False, timeout=600)
         if what not in neg['out']:
             raise V.Infra('MC_Block2 sanity: %s does not produce "%s"' % (cfgname, what))
+    # expiry of transfer state: by progress the slow transfer gets through and the abandoned one goes away; by start (as it was) the slow one dies
+    be = V.mc('MC_BlockExpiry', 'MC_BlockExpiry.cfg', must_fire=['Expire', 'Arrive', 'Lose', 'Tick'], workers=2, timeout=300)
+    if be['violated']:
+        raise V.Infra('MC_BlockExpiry violated (specification error):\n' + be['out'][-2000:])
+    neg = V.tlc('MC_BlockExpiry', 'MC_BlockExpiry_bystart.cfg', workers=1, deque=False, timeout=300)
+    if 'Invariant ProgressNeverExpiresI is violated' not in neg['out']:
+        raise V.Infra('MC_BlockExpiry sanity: expiry counted from the start of the transfer is NOT rejected by the model')
     cases = gen(tier, rnd)
     env = {f['id']: '1' for f in V.enabled_findings()}
     vio_out, nexec, known, results = V.drive_and_validate(pid, drv, cases, out, 'Trace_Block', env=env, xmx='4g')
